@@ -34,11 +34,12 @@ structure NInv (e : Env) (P : List Name) (st : St) : Prop where
   pNeeded : ∀ n ∈ P, n ∈ st.aNeeded
   acts : ∀ act ∈ st.acts, (∀ n ls, act = .transfer n ls → ∃ bN ∈ st.aReady, n = st.nameOf bN) ∧
     (∀ aN al bl rs, act = .edit aN al bl rs → e.a.hasAcl aN = true)
+  noRoute : ∀ act ∈ st.acts, isRouteAct act = false
 
 /-- A step that changes neither `ready`, names nor `needed` and adds only decisions that create no ACL. -/
 theorem ninv_same {e : Env} {P : List Name} {st st' : St} (h : NInv e P st)
     (h1 : st'.aReady = st.aReady) (h2 : st'.aName = st.aName) (h3 : st'.aNeeded = st.aNeeded)
-    (h4 : ∀ act ∈ st'.acts, act ∈ st.acts ∨ ¬ NamedAct act) : NInv e P st' := by
+    (h4 : ∀ act ∈ st'.acts, act ∈ st.acts ∨ (¬ NamedAct act ∧ isRouteAct act = false)) : NInv e P st' := by
   have hn : ∀ x, st'.nameOf x = st.nameOf x := fun x => by simp [St.nameOf, h2]
   constructor
   · intro b1 hb1 b2 hb2 hh
@@ -60,8 +61,12 @@ theorem ninv_same {e : Env} {P : List Name} {st st' : St} (h : NInv e P st)
       obtain ⟨bN, j1, j2⟩ := k1 n ls hh
       exact ⟨bN, by rw [h1]; exact j1, by rw [hn]; exact j2⟩
     · refine ⟨?_, ?_⟩
-      · intro n ls hh; rw [hh] at k; exact absurd trivial k
-      · intro aN al bl rs hh; rw [hh] at k; exact absurd trivial k
+      · intro n ls hh; rw [hh] at k; exact absurd trivial k.1
+      · intro aN al bl rs hh; rw [hh] at k; exact absurd trivial k.1
+  · intro act hact
+    rcases h4 act hact with k | k
+    · exact h.noRoute act k
+    · exact k.2
 
 theorem ninv_hit {e : Env} {P : List Name} {st : St} (h : NInv e P st) (s : String) : NInv e P (st.hit s) :=
   ninv_same h rfl rfl rfl (fun _ ha => Or.inl ha)
@@ -140,6 +145,12 @@ theorem ninv_transfer {e : Env} {P : List Name} {st : St} (h : NInv e P st) (bN 
           injection hh with h1 _
           exact ⟨bN, by rw [f1]; exact List.mem_cons_self .., by rw [hn]; exact h1.symm⟩
         · intro aN al bl rs hh; rw [k] at hh; cases hh
+    · intro act hact
+      rw [f4] at hact
+      rcases List.mem_append.mp hact with k | k
+      · exact h.noRoute act k
+      · simp only [List.mem_singleton] at k
+        rw [k]; rfl
 
 /-- `diffCmds` for two ACL objects. -/
 theorem ninv_diffAcl {e : Env} {P : List Name} {st : St} (h : NInv e P st) (aN bN : Name)
@@ -239,6 +250,10 @@ theorem ninv_diffAcl {e : Env} {P : List Name} {st : St} (h : NInv e P st) (aN b
             rw [k] at hh
             injection hh with h1 _ _ _
             rw [← h1]; exact ha
+      · intro act hact
+        rcases f4 act hact with k | ⟨al, bl, rs, k⟩
+        · exact h.noRoute act k
+        · rw [k]; rfl
 
 theorem ninv_delBind1 {e : Env} {P : List Name} {st : St} (h : NInv e P st) (i : Nat) (x : String) (al : List Bind) (k : Nat) :
     NInv e P (delBind1 e i x al st k) ∧ (delBind1 e i x al st k).iNeeded = st.iNeeded ∧
@@ -257,7 +272,7 @@ theorem ninv_delBind1 {e : Env} {P : List Name} {st : St} (h : NInv e P st) (i :
       intro act hact
       rcases mem_act (st := ({ st with bNeeded := (i, k) :: st.bNeeded } : St)) hact with j | j
       · exact Or.inl j
-      · right; rw [j]; exact fun hc => hc
+      · right; rw [j]; exact ⟨fun hc => hc, rfl⟩
   split
   · exact ⟨ninv_same h1.1 rfl rfl rfl (fun _ ha => Or.inl ha), h1.2.1, h1.2.2⟩
   · exact h1
@@ -286,13 +301,13 @@ theorem ninv_addBind1 {e : Env} {P : List Name} {st : St} (h : NInv e P st) (x :
     intro act hact
     rcases mem_act hact with j | j
     · exact Or.inl j
-    · right; rw [j]; exact fun hc => hc
+    · right; rw [j]; exact ⟨fun hc => hc, rfl⟩
   · simp only [hb, Bool.false_eq_true, ↓reduceIte]
     refine ⟨ninv_same h rfl rfl rfl ?_, rfl, fun y hy => hy⟩
     intro act hact
     rcases mem_act hact with j | j
     · exact Or.inl j
-    · right; rw [j]; exact fun hc => hc
+    · right; rw [j]; exact ⟨fun hc => hc, rfl⟩
 
 theorem ninv_addBinds {e : Env} {P : List Name} (x : String) (bs : List Bind) (hbs : ∀ b ∈ bs, BoundB e b.acl)
     {st : St} (h : NInv e P st) :
@@ -326,7 +341,7 @@ theorem ninv_makeEqualBind {e : Env} {P : List Name} {st : St} (h : NInv e P st)
       · intro act hact
         rcases mem_act hact with j | j
         · exact Or.inl j
-        · right; rw [j]; exact fun hc => hc
+        · right; rw [j]; exact ⟨fun hc => hc, rfl⟩
       · show (diffAcl e st1 a.acl b.acl).1.iNeeded = st.iNeeded
         rw [k2, hi1]
     · exact ⟨k1, by rw [k2, hi1], fun y hy => k3 y (by rw [hr1]; exact hy)⟩
